@@ -15,7 +15,7 @@ import (
 )
 
 // Block templates (payload of the extend event), simplest first.
-var BlockTemplates = []string{"e", "ca", "pa", "sa", "ch", "ab", "st", "sw", "bo", "bw", "nd", "bn"}
+var BlockTemplates = []string{"e", "ca", "pa", "sa", "sj", "ch", "ab", "st", "sw", "bo", "bw", "nd", "bn"}
 
 // Reorg branch patterns.
 var ReorgPatterns = []string{"E", "R", "D", "P"}
@@ -67,6 +67,18 @@ func (w *World) strangerCoin(l *Ledger, skip map[wire.OutPoint]bool) *Coin {
 	return nil
 }
 
+// s3Coin returns the oldest unspent coin of the third stranger script (one output of every
+// stranger coinbase) that the next block may spend.
+func (w *World) s3Coin(l *Ledger) *Coin {
+	for _, c := range l.ByOrder {
+		if c.SpentAt == 0 && c.Owner == nil && c.Class == ClassStd && string(c.Hash) == string(w.S3Hash) &&
+			!w.relayedSpends(c.OP) && w.NextSpendable(c, l) {
+			return c
+		}
+	}
+	return nil
+}
+
 // walletCoin returns role's oldest unspent coin of class that the next block may spend.
 func (w *World) walletCoin(l *Ledger, role string, class int, skip map[wire.OutPoint]bool) *Coin {
 	for _, c := range l.ByOrder {
@@ -106,6 +118,20 @@ func (w *World) Content(t string, l *Ledger) (txs []*wire.MsgTx, ok bool) {
 			return []*wire.MsgTx{cb, spend([]*Coin{c}, out(c.Value-fee, w.SPk))}, true
 		}
 		return []*wire.MsgTx{cb, spend([]*Coin{c}, out(Mass, w.SPk), out(c.Value-Mass-fee, A.Addrs[0].Pk))}, true
+	case "sj":
+		// jointly funded spend: a foreign input FIRST, A's coin second, A's change as the third
+		// output - so that the wallet's input and output indexes differ from their positions among
+		// the wallet-relevant inputs/outputs. The foreign coin comes from a script (S3) that only
+		// this template spends, so no other template can double-spend it.
+		c := w.walletCoin(l, "A", ClassStd, nil)
+		f := w.s3Coin(l)
+		if c == nil || f == nil {
+			return nil, false
+		}
+		if c.Value < 2*Mass {
+			return []*wire.MsgTx{cb, spend([]*Coin{f, c}, out(f.Value-fee, w.S3Pk), out(c.Value, w.SPk))}, true
+		}
+		return []*wire.MsgTx{cb, spend([]*Coin{f, c}, out(f.Value-fee, w.S3Pk), out(Mass, w.SPk), out(c.Value-Mass, A.Addrs[0].Pk))}, true
 	case "ch":
 		c := s()
 		if c == nil || B == nil {
@@ -133,7 +159,7 @@ func (w *World) Content(t string, l *Ledger) (txs []*wire.MsgTx, ok bool) {
 		if c == nil {
 			return nil, false
 		}
-		return []*wire.MsgTx{cb, spend([]*Coin{c}, out(5*Mass, stakingPk(A.Addrs[0].Hash, consensus.MinFrozenPeriod)), out(c.Value-5*Mass-fee, w.SPk))}, true
+		return []*wire.MsgTx{cb, spend([]*Coin{c}, out(c.Value-5*Mass-fee, w.SPk), out(5*Mass, stakingPk(A.Addrs[0].Hash, consensus.MinFrozenPeriod)))}, true // deposit is output 1
 	case "sw":
 		c := w.walletCoin(l, "A", ClassStaking, nil)
 		if c == nil {
@@ -153,7 +179,7 @@ func (w *World) Content(t string, l *Ledger) (txs []*wire.MsgTx, ok bool) {
 		if t == "bn" {
 			target = append(fixedHash(0x62)[:20], 0, 32) // plot hash, type 0 (MASS), bit length 32
 		}
-		return []*wire.MsgTx{cb, spend([]*Coin{c}, out(6*Mass, bindingPk(A.Addrs[1].Hash, target)), out(c.Value-6*Mass-fee, w.SPk))}, true
+		return []*wire.MsgTx{cb, spend([]*Coin{c}, out(c.Value-6*Mass-fee, w.SPk), out(6*Mass, bindingPk(A.Addrs[1].Hash, target)))}, true // deposit is output 1
 	case "bw":
 		c := w.walletCoin(l, "A", ClassBinding, nil)
 		if c == nil {
